@@ -452,7 +452,11 @@ func main() {
 		case o.Outcome == 3:
 			st.Fail(site+":crash", "decoder killed or hung the process (unbounded allocation / loop)", inp)
 		default:
-			bound := uint64(256*len(in)) + 65536 + uint64(o.LastFail) + d.Prealloc
+			lf := uint64(o.LastFail)
+			if lf > 16<<20 { // no field limit of the protocol exceeds common.MaxVarStringLength
+				lf = 16 << 20
+			}
+			bound := uint64(256*len(in)) + 65536 + lf + d.Prealloc
 			if d.DecodeBuf != nil {
 				bound += 16 << 20
 			}
